@@ -24,16 +24,21 @@ LEVEL_TEXT = (
     "run of Ignored items -- inserted, removed where the next code point cannot extend the token, or rewritten -- and "
     "the kinds and values of all tokens before and after it are unchanged (ignored_invariance, ignored_insertion, "
     "ignored_removal; per-class locality of the grammar's recognisers); strip_ignored_characters rejects exactly what "
-    "the lexer rejects and never crashes, and for every source text made of Unicode scalar values the stripped text "
-    "lexes to the same kinds and values (block strings re-printed minimised, compared by value) and stripping it again "
-    "returns it unchanged (strip_tokens_partial, strip_idem_partial; uses C08's block-string print/lex round trip); the advance_lexer counter accepts exactly the streams with at most n tokens "
-    "and ends at the number of significant tokens. Not proved (kept as full-statement defs, covered by correspondence "
-    "and oracles only): strip_tokens / strip_idem for texts containing surrogate code points. "
+    "the lexer rejects and never crashes, and for every source text that lexes -- Unicode scalar values and verbatim "
+    "surrogate pairs (a lead surrogate immediately followed by a trail surrogate inside strings, block strings and "
+    "comments) alike -- the stripped text lexes to the same kinds and values (block strings re-printed minimised, "
+    "compared by value) and stripping it again returns it unchanged (strip_tokens : strip_tokens_full, strip_idem : "
+    "strip_idem_full, no hypothesis on the text; they rest on the block-string print/lex round trip extended to values "
+    "with surrogate pairs, printBlockStringW_roundtrip_paired, and on blockString?_value_paired: neither the line split "
+    "nor the removal of the common indentation separates a pair); the advance_lexer counter accepts exactly the "
+    "streams with at most n tokens and ends at the number of significant tokens. "
     "The models are tied to the code by an exhaustive three-way comparison implementation / model / specification "
     "tokenizer on all strings of length <= 4 (quick) / <= 5 (thorough) over the 16-symbol alphabet, a second "
     "exhaustive pass over a 32-symbol alphabet (<= 3 / <= 4), generated and mutated documents x Ignored classes x "
     "token boundaries (AST and token signature unchanged), strip text equality model vs code with "
-    "idempotence / same-AST / same-rejection oracles, and max_tokens / token_count against the specification's count."
+    "idempotence / same-AST / same-rejection oracles (a quarter of the generated strip texts and an exhaustive family "
+    "of short block strings contain verbatim surrogate pairs in strings, block strings and comments, or broken pairs), "
+    "and max_tokens / token_count against the specification's count."
 )
 LEVEL_NOTE = (
     "Trusted: Lean kernel; hand-written models Gql/Text/Lexer.lean, Strip.lean, BlockString.lean (tied by "
@@ -206,21 +211,21 @@ def _lex_work(args):
             rep.nontrivial += 1
             st["rejected"] = st.get("rejected", 0) + 1
         if m is not None and i != m:
-            rep.disagreements.append(Disagreement("lexer", {"kind": "lex", "body": b}, i, m))
+            rep.disagreements.append(Disagreement("lexer", _inp("lex", "body", b), i, m))
         if i.startswith("crash"):
-            rep.failures.append(Failure("lexer-raises-non-syntax-error", "the lexer raises something other than GraphQLSyntaxError", {"kind": "lex", "body": b}, i, "tokens or a syntax error", "C09-1 lex_no_crash"))
+            rep.failures.append(Failure("lexer-raises-non-syntax-error", "the lexer raises something other than GraphQLSyntaxError", _inp("lex", "body", b), i, "tokens or a syntax error", "C09-1 lex_no_crash"))
             continue
         if s is None:
             continue
         it = _parse_out(i, True)
         stoks = _parse_out(s, False)
         if it is None and stoks is not None:
-            rep.failures.append(Failure("lexer-rejects-grammar-text", "the lexer rejects a text that is in the lexical grammar", {"kind": "lex", "body": b}, i, s, "C09-1 lexer_eq_grammar (spec tokenizer)"))
+            rep.failures.append(Failure("lexer-rejects-grammar-text", "the lexer rejects a text that is in the lexical grammar", _inp("lex", "body", b), i, s, "C09-1 lexer_eq_grammar (spec tokenizer)"))
         elif it is not None and stoks is None:
-            rep.failures.append(Failure("lexer-accepts-outside-grammar", "the lexer accepts a text that is not in the lexical grammar", {"kind": "lex", "body": b}, i, "rejected (no token sequence)", "C09-1 lexer_eq_grammar (spec tokenizer)"))
+            rep.failures.append(Failure("lexer-accepts-outside-grammar", "the lexer accepts a text that is not in the lexical grammar", _inp("lex", "body", b), i, "rejected (no token sequence)", "C09-1 lexer_eq_grammar (spec tokenizer)"))
         elif it is not None and it != stoks:
             kind = next((x[0] for x, y in itertools.zip_longest(it, stoks, fillvalue=("EOF",)) if x != y), "?")
-            rep.failures.append(Failure(f"lexer-token-differs-{kind}", "token kinds/spans/values differ from the lexical grammar", {"kind": "lex", "body": b}, i, s, "C09-1 lexer_eq_grammar (spec tokenizer)"))
+            rep.failures.append(Failure(f"lexer-token-differs-{kind}", "token kinds/spans/values differ from the lexical grammar", _inp("lex", "body", b), i, s, "C09-1 lexer_eq_grammar (spec tokenizer)"))
     if bodies:
         b = bodies[len(bodies) // 2]
         k = len(bodies) // 2
@@ -238,23 +243,77 @@ POOL_BAD_STRINGS = ['"', '"a', '"\\x"', '"\\u12"', '"\\u{}"', '"\\u{110000}"', '
 POOL_BLOCKS = ['""""""', '"""a"""', '""" a\n  b\n c """', '"""\n\n  x\n\n"""', '"""\\""""""', '"""a\\"""', '"""a"\n"""', '"""\r\n\ta\r\tb"""', '""" """', '"""\n"""', '"""a\\\n"""', '"""x\n    y\n   z"""', '"""é\U0001f600"""']
 POOL_BAD_BLOCKS = ['"""', '"""a""', '"""\ud83d"""']
 POOL_PUNCT = ["!", "$", "&", "(", ")", "...", ":", "=", "@", "[", "]", "{", "|", "}"]
+# verbatim surrogate pairs (two code points of a Python str: lead immediately followed by trail), which the lexer
+# accepts inside strings, block strings and comments; PAIR_LO / PAIR_HI are the extreme pairs
+PAIR = "\ud83d\ude00"
+PAIR_LO = "\ud800\udc00"
+PAIR_HI = "\udbff\udfff"
+POOL_PAIR_STRINGS = ['"' + PAIR + '"', '"a' + PAIR + 'b"', '"' + PAIR + '\\n"', '"' + PAIR_LO + PAIR_HI + '"', '" ' + PAIR + ' "', '"\\u0041' + PAIR + '"']
+POOL_PAIR_BLOCKS = [
+    '"""' + PAIR + '"""', '"""\n  ' + PAIR + 'a\n   ' + PAIR + '\n"""', '""" ' + PAIR + '\\""""""', '"""' + PAIR + '\n ' + PAIR + '"""',
+    '"""a\n\t' + PAIR + '\n\t ' + PAIR + PAIR + '\n"""', '"""' + PAIR + '"\n"""', '"""\r\n  ' + PAIR + '\r   x' + PAIR_HI + '"""',
+    '"""' + PAIR + '\\"""', '"""\n' + PAIR_LO + '\n"""', '"""  ' + PAIR + '\n\n    ' + PAIR + ' \n  """', '"""' + PAIR + '\\\n"""', '"""' + PAIR + ' """',
+]
+POOL_PAIR_IGNORED = ["#" + PAIR + "\n", "# " + PAIR + " x\r\n", "#" + PAIR, "#" + PAIR_LO + PAIR_HI + "\r", " #" + PAIR + "\n "]
+# broken pairs: reversed, separated by a blank / a line terminator / an escaped triple quote, lone halves
+POOL_BAD_PAIRS = [
+    '"\ude00\ud83d"', '"""\ud83d\n\ude00"""', '"""\ud83d \ude00"""', '"""\ud83d\\"""\ude00"""', '"""' + PAIR + '\ud83d"""', '"' + PAIR + '\ude00"',
+    "#\ud83d\n", "#" + PAIR + "\ude00\n", '"""\ude00"""', PAIR,
+]
 POOL_IGNORED = [" ", "\t", ",", "\n", "\r", "\r\n", "\ufeff", "#c\n", "# \U0001f600\r", "#", "  ", "\n\n", ""]
 
 
-def gen_lexeme_strings(rng, n, bad_rate=0.15):
-    """Random sequences of lexemes separated by random (possibly empty) ignored material."""
+def gen_lexeme_strings(rng, n, bad_rate=0.15, pair_rate=0.0):
+    """Random sequences of lexemes separated by random (possibly empty) ignored material.  With probability
+    `pair_rate` a text is a surrogate-pair text: its strings, block strings and comments are drawn (half of the
+    time each) from the pools with verbatim surrogate pairs, its bad lexemes from the broken pairs."""
     out = []
     good = [POOL_NAMES, POOL_NUMS, POOL_STRINGS, POOL_BLOCKS, POOL_PUNCT]
     bad = [POOL_BAD, POOL_BAD_STRINGS, POOL_BAD_BLOCKS]
+    good_p = [POOL_NAMES, POOL_NUMS, POOL_PAIR_STRINGS, POOL_PAIR_BLOCKS, POOL_PAIR_BLOCKS, POOL_PUNCT]
     for _ in range(n):
         k = rng.randint(1, 9)
-        parts = [rng.choice(POOL_IGNORED)]
+        paired = pair_rate > 0 and rng.random() < pair_rate
+
+        def ign():
+            if paired and rng.random() < 0.3:
+                return rng.choice(POOL_PAIR_IGNORED)
+            return rng.choice(POOL_IGNORED)
+
+        parts = [ign()]
         for _ in range(k):
-            pool = rng.choice(bad) if rng.random() < bad_rate / k * 3 else rng.choice(good)
+            if rng.random() < bad_rate / k * 3:
+                pool = POOL_BAD_PAIRS if paired else rng.choice(bad)
+            elif paired and rng.random() < 0.6:
+                pool = rng.choice(good_p)
+            else:
+                pool = rng.choice(good)
             parts.append(rng.choice(pool))
-            parts.append(rng.choice(POOL_IGNORED))
+            parts.append(ign())
         out.append("".join(parts))
     return out
+
+
+def _inp(kind, key, text, **extra):
+    """Replay input.  JSON cannot carry a verbatim surrogate pair (json.loads joins `\\ud83d\\ude00` into the one
+    code point U+1F600), so a text with surrogate code points is stored as its list of code points as well and
+    `_text_of` reads that back."""
+    d = {"kind": kind, key: text}
+    d.update(extra)
+    if any(0xD800 <= ord(c) <= 0xDFFF for c in text):
+        d["cps"] = [ord(c) for c in text]
+    return d
+
+
+def _text_of(inp, key):
+    if "cps" in inp:
+        return "".join(chr(c) for c in inp["cps"])
+    return inp[key]
+
+
+def has_pair(text):
+    """A lead surrogate immediately followed by a trail surrogate occurs verbatim in the text."""
+    return any(0xD800 <= ord(a) <= 0xDBFF and 0xDC00 <= ord(b) <= 0xDFFF for a, b in zip(text, text[1:]))
 
 
 def gen_block_values(alphabet, n):
@@ -372,7 +431,7 @@ def _insert_work(args):
         rep.evaluations += 1
         st["ins_" + cls] = st.get("ins_" + cls, 0) + 1
         st["base_" + base_ast[0]] = st.get("base_" + base_ast[0], 0) + 1
-        inp = {"kind": "insert", "text": text, "pos": pos, "class": cls}
+        inp = _inp("insert", "text", text, pos=pos, **{"class": cls})
         sig = _sig(new)
         if sig != base_sig:
             rep.failures.append(Failure(f"insert-{cls}-changes-tokens", f"inserting {cls} at a token boundary changes the token stream", inp, _short(sig), _short(base_sig), "C09-3 ignored_invariance"))
@@ -437,7 +496,7 @@ def _strip_work(args):
     for text, m in zip(texts, outs):
         rep.evaluations += 1
         r = _impl_strip(text)
-        inp = {"kind": "strip", "text": text}
+        inp = _inp("strip", "text", text)
         if r[0] == "ok":
             canon = ("ok " + fw.cps(r[1])).rstrip()
         elif r[0] == "err":
@@ -451,6 +510,10 @@ def _strip_work(args):
         sig = _sig(text)
         lex_fails = bool(sig) and sig[-1] == "ERR"
         st["strip_" + r[0]] = st.get("strip_" + r[0], 0) + 1
+        if has_pair(text):
+            st["strip_pair_" + r[0]] = st.get("strip_pair_" + r[0], 0) + 1
+            if r[0] == "ok" and '"""' in text:
+                st["strip_pair_ok_with_block"] = st.get("strip_pair_ok_with_block", 0) + 1
         if r[0] == "crash":
             rep.failures.append(Failure("strip-raises-non-syntax-error", "strip_ignored_characters raises something other than GraphQLSyntaxError", inp, r[1], "text or syntax error", "C09-4"))
             continue
@@ -509,7 +572,7 @@ def _pbs_work(args):
             except Exception as e:  # noqa: BLE001
                 impl = "crash " + type(e).__name__
             if impl != outs[k].rstrip():
-                rep.disagreements.append(Disagreement("print_block_string", {"kind": "pbs", "value": v, "minimize": m}, impl, outs[k]))
+                rep.disagreements.append(Disagreement("print_block_string", _inp("pbs", "value", v, minimize=m), impl, outs[k]))
             k += 1
     return rep
 
@@ -532,7 +595,7 @@ def _limit_work(args):
             continue
         rng = random.Random(f"c09-limit:{seed}:{text[:40]}")
         tc = base[1].token_count
-        inp = {"kind": "limit", "text": text}
+        inp = _inp("limit", "text", text)
         rep.evaluations += 1
         if c is not None:
             if not c.startswith("ok") or int(c.split()[1]) != tc:
@@ -547,7 +610,7 @@ def _limit_work(args):
             rep.evaluations += 1
             rep.nontrivial += 1
             r = _parse(text, max_tokens=n)
-            inp = {"kind": "limit", "text": text, "n": n}
+            inp = _inp("limit", "text", text, n=n)
             if r[0] == "ok" and n_true > n:
                 rep.failures.append(Failure("max_tokens-accepts-too-many", f"max_tokens={n} accepts a document with {n_true} tokens", inp, "accepted", "rejected", "C09-5 token_limit"))
             elif r[0] != "ok" and n_true <= n:
@@ -561,7 +624,7 @@ def _limit_work(args):
         outs = driver.run(lines)
         for (text, n, impl), m in zip(meta, outs):
             if impl != m:
-                rep.disagreements.append(Disagreement("advance_lexer-counter", {"kind": "limit", "text": text, "n": n}, impl, m))
+                rep.disagreements.append(Disagreement("advance_lexer-counter", _inp("limit", "text", text, n=n), impl, m))
     return rep
 
 
@@ -572,6 +635,7 @@ CORPUS_LEX = [
     '"\\u{000000041}"', '"\\u{00000041}"', '"\\u{110000}"', '"\\u{D800}"', '"\\uD83D\\uDE00"', '"\\uDE00\\uD83D"',
     '"😀"', '"\ud83d"', "#\ud83d\na", "#😀\ra", '""""""', '"""\\""""""', '""""', '"""""', '""" \n  a\n b\n\t\n"""',
     '"""\r\n\r\n"""', '"""a\rb\r\nc\nd"""', "a...b", "1...", "1 ...", "a#b\r\nc", "0.0e-0a", "1e+", "9E9", "_", "__a1",
+    '"' + PAIR + '"', '"""' + PAIR + '"""', "#" + PAIR + "\na", "#" + PAIR, '"\ude00\ud83d"', '"""\ud83d\n\ude00"""', '"""  ' + PAIR_LO + '\n   ' + PAIR_HI + '"""', PAIR,
     '"\\b\\f\\n\\r\\t\\/\\\\\\""', '"\\u00e9"', '"\\u{e9}"', '"\\u{E9}"', '"\\uD800\\u0041"', '""" \\""" """', "'", "?", "\u2028", "\xa0",
 ]
 
@@ -580,6 +644,12 @@ CORPUS_STRIP = [
     '""" a"""', '"""a """', '"""\n a\n  b"""', '"""a""""', '"""a\\"""', '"""\\"""', '""" \n\t\n"""', '"""a\n\n b"""', '""" a\n b"""', '"""a\rb"""',
     '"""\n    a\n      b\n"""', '"""a\\"""', '"""a"\n"""', '"""a\\\n"""', "# c\n", "a # c", '"""\x0cx"""', '"""\u2028 a"""',
     'f(a: """ x\x0cy""")',
+    # verbatim surrogate pairs in block strings (indentation, escaped triple quote, forced trailing new line),
+    # strings and comments; the first one is the `example` beside `strip_tokens` in Props/C09.lean
+    '"""\n  ' + PAIR + 'a\n   ' + PAIR + '""" #' + PAIR + '\n"' + PAIR + '"',
+    '"""' + PAIR + '"""', '""" ' + PAIR + '\\""""""', '"""' + PAIR + '"\n"""', '"""\n    ' + PAIR + '\n      ' + PAIR_HI + '\n"""', '"""' + PAIR + '\\\n"""',
+    '"""\r\n\t' + PAIR_LO + '\r\t b"""', 'a #' + PAIR + '\n b', '"' + PAIR + '" "' + PAIR + '"', '{ f(a: """ ' + PAIR + '\n  ' + PAIR + '""") }',
+    '"""\ud83d\n\ude00"""', '"""\ud83d"""', '"\ude00\ud83d"', "#\ud83d\n",
 ]
 
 
@@ -638,7 +708,7 @@ def explore(ctx) -> Report:
     for b in strings_upto(ALPHABET_EXT, n32):
         if b not in seen:
             bodies.append(b)
-    bodies += gen_lexeme_strings(rng, 6000 if quick else 60000)
+    bodies += gen_lexeme_strings(rng, 6000 if quick else 60000, pair_rate=0.1)
     jobs += [("lex", (c, drv)) for c in fw.chunked(bodies, W)]
     rep.stats["lex_strings"] = len(bodies)
 
@@ -662,13 +732,16 @@ def explore(ctx) -> Report:
 
     # (3) strip
     rng3 = ctx.sub_rng("c09-strip")
-    texts = _corpus("strip.cases", "text") + list(CORPUS_STRIP) + docs + muts + gen_lexeme_strings(rng3, 4000 if quick else 40000, bad_rate=0.05)
+    texts = _corpus("strip.cases", "text") + list(CORPUS_STRIP) + docs + muts + gen_lexeme_strings(rng3, 4000 if quick else 40000, bad_rate=0.05, pair_rate=0.25)
     jobs += [("strip", (c, drv, True)) for c in fw.chunked(texts, W)]
     small = list(strings_upto(ALPHABET, 3 if quick else 5))
     small += ['"""' + v + '"""' for v in gen_block_values(['"', "\\", " ", "\n", "\r", "a", "\t"], 4 if quick else 6)]
+    # all block strings over an alphabet with a verbatim surrogate pair (one symbol), a lone lead and a lone trail surrogate
+    small += ['"""' + v + '"""' for v in gen_block_values(['"', "\\", " ", "\n", "a", PAIR, "\ud83d", "\ude00"], 4 if quick else 5) if "\ud83d" in v]
     jobs += [("strip", (c, drv, False)) for c in fw.chunked(small, W // 2)]
     rep.stats["strip_texts"] = len(texts) + len(small)
     vals = gen_block_values(['"', "\\", " ", "\n", "\r", "a", "\t"], 5 if quick else 6) + ["a" * 70, "a" * 71, "\u2028a", "a\x0cb\n c"]
+    vals += [v for v in gen_block_values(['"', "\\", " ", "\n", "a", PAIR], 4 if quick else 5) if PAIR in v]
     jobs += [("pbs", (c, drv)) for c in fw.chunked(vals, W // 4)]
 
     # (4) token limit
@@ -686,7 +759,10 @@ def explore(ctx) -> Report:
         "token boundaries x 9 Ignored classes (quick: every boundary of the two kitchen-sink seeds with a rotating third of "
         "the classes, every boundary x every class for the small documents, 10 sampled boundaries for recombined / "
         "mutated documents; thorough: everything). (3) strip on documents, mutated documents, lexeme sequences, all short "
-        "strings, all block strings over a 7-symbol alphabet; non-trivial = stripped text differs from the input. "
+        "strings, all block strings over a 7-symbol alphabet and over an 8-symbol alphabet with a verbatim surrogate "
+        "pair, a lone lead and a lone trail surrogate; a quarter of the lexeme sequences draw their strings, block strings "
+        "and comments from pools with verbatim / broken surrogate pairs (stats strip_pair_*); non-trivial = stripped text "
+        "differs from the input. "
         "(4) max_tokens in {0,1,n-1,n,n+1,random} for every parsable document."
     )
     rep.exhaustive = True
@@ -703,7 +779,7 @@ def search(ctx, rep) -> Report:
     bodies = gen_lexeme_strings(rng, 40000, bad_rate=0.3)
     for r in fw.pmap(_lex_work, [(c, drv) for c in fw.chunked(bodies, fw.WORKERS * 4)]):
         out.merge(r)
-    texts = gen_lexeme_strings(rng, 20000, bad_rate=0.05)
+    texts = gen_lexeme_strings(rng, 20000, bad_rate=0.05, pair_rate=0.25)
     for r in fw.pmap(_strip_work, [(c, drv, True) for c in fw.chunked(texts, fw.WORKERS * 4)]):
         out.merge(r)
     if ctx.driver is None:
@@ -717,13 +793,13 @@ def replay(ctx, payload) -> Report:
     inp = payload["input"]
     kind = inp.get("kind")
     if kind == "lex":
-        return _lex_work(([inp["body"]], drv))
+        return _lex_work(([_text_of(inp, "body")], drv))
     if kind == "insert":
-        return _insert_work(([(inp["text"], inp["pos"], inp["class"])], drv))
+        return _insert_work(([(_text_of(inp, "text"), inp["pos"], inp["class"])], drv))
     if kind == "strip":
-        return _strip_work(([inp["text"]], drv, True))
+        return _strip_work(([_text_of(inp, "text")], drv, True))
     if kind == "pbs":
-        return _pbs_work(([inp["value"]], drv))
+        return _pbs_work(([_text_of(inp, "value")], drv))
     if kind == "limit":
-        return _limit_work(([inp["text"]], drv, ctx.seed))
+        return _limit_work(([_text_of(inp, "text")], drv, ctx.seed))
     return Report(notes=[f"unknown replay kind {kind!r}"])
